@@ -12,8 +12,10 @@
   incremental view entry by entry with those of the implementation's own rebuild, and
   HL.Props.C12.C12_templates_eq_rebuild proves that equality for the repaired code);
   declared accounts and commodities are the union of the members' directives; commodity
-  formats are those of the last directive in include order (the order in which
-  `include.Loader` meets the files).
+  formats are those of the last directive with a format, reading the root journal first and
+  then the other member files in path order (before fix-formats-path-order.diff: in the
+  order in which `include.Loader` meets the files, `loadOrder`, which an incrementally
+  maintained workspace does not reproduce — `pinned_formats_order_counterexample`).
 
   `Reach` is the declarative reachability relation; `reach` computes it with the generic
   graph search `bfsF` (proved equivalent in HL/Lemmas/Reach.lean: `mem_reach_iff`).
@@ -113,6 +115,13 @@ def loadOrder (limit : Nat) (fs : FS) (root : String) : List String :=
   | some c => root :: (load limit fs root c).order
   | none => []
 
+/-- the files in the order in which commodity formats are read: the root, then the other
+    member files in path order. -/
+def formatOrder (fs : FS) (root : String) : List String :=
+  match fs.get root with
+  | some _ => root :: isort ((members fs root).filter (· ≠ root))
+  | none => []
+
 def rebuildAt (limit : Nat) (root : String) (fs : FS) : RView :=
   let ms := members fs root
   let cs := ms.filterMap fs.get
@@ -130,7 +139,7 @@ def rebuildAt (limit : Nat) (root : String) (fs : FS) : RView :=
       (p, cs.filterMap fun c => c.pts.get p)
     declA := isort (dedup (cs.flatMap (·.declA)))
     declC := isort (dedup (cs.flatMap fun c => c.cds.map (·.sym)))
-    formats := formatsOf ((loadOrder limit fs root).flatMap fun p =>
+    formats := formatsOf ((formatOrder fs root).flatMap fun p =>
       match fs.get p with | some c => c.cds | none => []) }
 
 /-- a fresh workspace initialised on `fs`. -/
@@ -215,9 +224,9 @@ def fsOk (fs : FS) : Bool :=
 /-- the format a file's own directives give a commodity (its last directive with a format). -/
 def fileFormat (c : Contrib) (sym : String) : Option String := (formatsOf c.cds).get sym
 
-/-- two member files other than the root declare different formats for one commodity: the
-    resulting format depends on the order of `resolved.FileOrder`, which depends on the
-    history of updates (known finding `formats-order`). -/
+/-- two member files other than the root declare different formats for one commodity: in the
+    pinned code the resulting format depends on the order of `resolved.FileOrder`, which
+    depends on the history of updates (finding `formats-order`, repaired). -/
 def formatConflict (fs : FS) (root : String) : Bool :=
   let ms := (members fs root).filter (· ≠ root)
   let cs := ms.filterMap fs.get
